@@ -102,10 +102,11 @@ end
 
 /-! ## Leaves under copying -/
 
-/-- A copy (pickle, `copy.copy`, `copy.deepcopy`) of a leaf: immutable values
-are themselves; a referenced object is replaced by its copy. -/
-def Leaf.copied : Leaf → Leaf
-  | .ref o g => .ref o (g + 1)
+/-- A copy (pickle, `copy.copy`, `copy.deepcopy`) of a leaf made when the
+allocator stands at `n`: immutable values are themselves; a referenced object
+is replaced by a NEW copy of it (generation `n + 1`: never handed out before). -/
+def Leaf.copiedAt (n : Nat) : Leaf → Leaf
+  | .ref o _ => .ref o (n + 1)
   | a => a
 
 def valLeaves (E : Env) (t : LeafTy) : List Leaf → Except Exc (List Leaf)
@@ -186,10 +187,10 @@ def Binding.afterCopy : Binding → Binding
 mutual
 /-- `pickle.loads(pickle.dumps(v))` of a value. -/
 def pickleV (n : Nat) : CVal → CVal × Nat
-  | .leaf a => (.leaf a.copied, n)
+  | .leaf a => (.leaf (a.copiedAt n), n + 1)
   | .node k _ b keys kids =>
     let r := pickleL (n + 1) kids
-    (.node k n b.afterSetstate (keys.map Leaf.copied) r.1, r.2)
+    (.node k n b.afterSetstate (keys.map (Leaf.copiedAt n)) r.1, r.2)
 def pickleL (n : Nat) : List CVal → List CVal × Nat
   | [] => ([], n)
   | v :: vs =>
@@ -205,7 +206,7 @@ the SOURCE's bound methods: while the source's owner is alive every item is
 validated again, and container items are re-built (bound to that owner).
 A set is refilled by `set.__init__`, without validation. -/
 def shallowV (E : Env) (n : Nat) : CVal → Except Exc (CVal × Nat)
-  | .leaf a => .ok (.leaf a.copied, n)
+  | .leaf a => .ok (.leaf (a.copiedAt n), n + 1)
   | .node k _ b keys kids =>
     match k, b.rule with
     | .lst, some (some o, .cont _ _ iT _ _) =>
@@ -227,16 +228,16 @@ mutual
 (trait_list_object.py:810-820): for a detached object `self.trait` is None and
 `__init__` raises AttributeError (`trait.has_items`). -/
 def deepcopyV (n : Nat) : CVal → Except Exc (CVal × Nat)
-  | .leaf a => .ok (.leaf a.copied, n)
+  | .leaf a => .ok (.leaf (a.copiedAt n), n + 1)
   | .node k _ b keys kids =>
     match deepcopyL (n + 1) kids with
     | .error e => .error e
     | .ok (kids', n') =>
       match b with
-      | .plain => .ok (.node k n .plain (keys.map Leaf.copied) kids', n')
+      | .plain => .ok (.node k n .plain (keys.map (Leaf.copiedAt n)) kids', n')
       | .detached _ => .error .attributeError
-      | .ownerless sh => .ok (.node k n (.ownerless sh) (keys.map Leaf.copied) kids', n')
-      | .bound _ sh => .ok (.node k n (.ownerless sh) (keys.map Leaf.copied) kids', n')
+      | .ownerless sh => .ok (.node k n (.ownerless sh) (keys.map (Leaf.copiedAt n)) kids', n')
+      | .bound _ sh => .ok (.node k n (.ownerless sh) (keys.map (Leaf.copiedAt n)) kids', n')
 def deepcopyL (n : Nat) : List CVal → Except Exc (List CVal × Nat)
   | [] => .ok ([], n)
   | v :: vs =>
